@@ -240,6 +240,12 @@ pub fn run_dynamic(j: &Joined, c: &Case, seed: u64, cap: u64, which: Which, acc:
                 stats.contributed = false;
             }
         }
+        // C02 and C03 speak about calls that behave as the convention says and about returns that go back behind
+        // their call: from the first breach on (a return address overwritten through a wild stack pointer sends the
+        // execution anywhere, e.g. *behind* an exit ecall) the rest of the execution is not judged
+        if !contributing && which != Which::C01 {
+            break;
+        }
 
         // ================= C02: def->use chains =================
         if which == Which::C02 {
